@@ -1861,6 +1861,7 @@ func (bc *Blockchain) AddBlock(block *block.Block) error {
 		if err != nil {
 			return err
 		}
+		bc.verifPoint(verifPointHeaderAdded)
 	} else {
 		expectedH := bc.GetHeaderHash(block.Index)
 		if expectedH != block.Hash() {
